@@ -278,8 +278,8 @@ func checkWriter(hist []int, run *wRun, x *verifsched.Execution) (sig, what stri
 	}
 	key = fmt.Sprintf("%+v|%d|%s", struct {
 		a, b, c, d bool
-		p       string
-		n, s    int
+		p          string
+		n, s       int
 	}{m.bsum, m.size7, m.conc2, m.legacy, m.phase, len(m.accepted), m.sink}, len(run.sinks), run.dump)
 	return "", "", key
 }
